@@ -5,7 +5,7 @@ import rfc8554 as R
 RULE = ("valid triples from library signatures (all hashes, 1..4+ levels, mixed parameters) plus structure-aware mutations: bit flips in "
         "every field class (level count, q, type codes, randomizer, chain values, path nodes, child keys, public-key fields, message), "
         "truncation/extension at field boundaries and by one byte, splices across keys/levels/hashes, chain truncation with the message "
-        "replaced by a child public key; oracle = independent RFC 8554 verifier (tools/rfc8554.py, Appendix-B formulas); signature/key extensions at 8/16-bit length boundaries (255, 256, 65535, 65536, 65537, 2*65536); 7- and 8-level keys, level fields 0, 1, 7, 8, 9, 16, 0x100+L, 2^32-1 in key and signature")
+        "replaced by a child public key; oracle = independent RFC 8554 verifier (tools/rfc8554.py, Appendix-B formulas); signature/key extensions at 8/16-bit length boundaries (255, 256, 65535, 65536, 65537, 2*65536); 7- and 8-level keys, level fields 0, 1, 7, 8, 9, 16, 0x100+L, 2^32-1 in key and signature; all triples again under the C14 configurations against the RFC verifier with that build\'s level limit")
 ASSUMPTIONS = ["the independent verifier uses the library's type-code numbering (1-4, 5-9, hook height 1) for every hash, as the property states "
                "('for the selected hash function')",
                "for the three LM-OTS rows whose checksum shift differs from Appendix B (known finding C12) the oracle uses the library's shift; "
@@ -188,3 +188,21 @@ def run(ctx):
             if (sp.strip() == "ok") != exp:
                 ctx.tie_failures.append("Lean RFC specification and the independent Python RFC verifier disagree on `%s` (Lean: %s, Python: %s)" % (ln[:200], sp, exp))
         ctx.extra["triples_checked_against_lean_rfc_spec"] = nspec
+
+    # the verifier of a constrained build must accept exactly the same triples as long as the level count fits the build: the signer-side
+    # limits (maximum heights, minimum Winternitz parameters) are not verification rules (C14 configurations; triples from the default build)
+    from . import C14
+    small = [c for c in cases if len(c.line) < 40000]
+    for cfg in (C14.CONFIGS_QUICK if ctx.tier == "quick" else C14.CONFIGS_THOROUGH):
+        Lmax = int(cfg["HBS_LMS_MAX_ALLOWED_HSS_LEVELS"])
+        if not ctx.open(cfg):
+            continue
+        for c, a, b in ctx.both([Case(c.line, "cfg/" + c.cls, c.meta) for c in small], proj_class):
+            H, m, s_, p_ = c.meta["t"]
+            exp = R.hss_verify(H, m, s_, p_, max_levels=Lmax, ls_of=lib_ls)
+            if a.startswith("panic"):
+                if exp:
+                    ctx.fail("verify disagrees with the independent RFC 8554 verifier: a valid triple makes the verifier of the build %s panic" % json.dumps(cfg), [c.line], a, "ok")
+                continue
+            if (a == "ok") != exp:
+                ctx.fail("verify disagrees with the independent RFC 8554 verifier in the build %s" % json.dumps(cfg), [c.line], a, "ok" if exp else "err")
